@@ -370,3 +370,18 @@ def r7(ctx: Ctx) -> None:
         if not ok:
             ctx.report(fi.where, f"unsound-pruning {norm_stmt(n.ast)}", "a trunk candidate can be skipped although no valid trunk has been found yet: an orthogon whose trunk is not the "
                        "largest rectangle is rejected depending on the order of the list", lineno=n.lineno, facts=sorted(show(x) for x in facts))
+
+
+@rule("C06", "R8.recognition-reruns", "LOOP-COVER",
+      "Netlist.create_stogs runs the recognition for every module, unconditionally: the roles are recomputed from the current "
+      "geometry, never kept because a module 'already has' a labelling (has_stog only looks at the stored role of the first rectangle)", floor=1)
+def r8_reruns(ctx: Ctx) -> None:
+    from .common import NETLIST
+    f = ctx.func(NETLIST, "Netlist.create_stogs")
+    c = canon_function(f, ctx.model)
+    loops = [st for st in c if st[0] == "for" and st[2] == ("a", ("self",), "modules")]
+    ctx.site(f.where, "for every module: m.create_stog(), with no condition", loops=len(loops))
+    ok = len(loops) == 1 and len(c) == 1 and loops[0][3] == (("expr", ("c", ("a", loops[0][1], "create_stog"), (), ())),)
+    if not ok:
+        ctx.report(f.where, "recognition-skipped " + "; ".join(show(x) for x in c)[:160], "Netlist.create_stogs does not call create_stog() for every module unconditionally: "
+                   "a module whose rectangles were moved keeps roles that no longer describe it", lineno=f.node.lineno)
